@@ -1,5 +1,5 @@
 (* Extract.v — extraction of the executable model to OCaml. ExtrOcamlBasic only: bool, option, list, prod, unit,
    sumbool map to OCaml natives; N / positive / nat stay Coq datatypes. No Extract Constant / Extract Inductive here. *)
-From Cobweb Require Import Machine AutoDespawn.
+From Cobweb Require Import Machine AutoDespawn Syscall.
 Require Import ExtrOcamlBasic.
-Extraction "../model/model.ml" run init_world ad_trace ad_init.
+Extraction "../model/model.ml" run init_world ad_trace ad_init run_case.
